@@ -30,7 +30,7 @@ func init() {
 		Floor:         c03Forced,
 		MinNontrivial: 50,
 		Phases: []fw.Phase{
-			{Name: "group", N: func(t fw.Tier) int { return pick(t, 3000, 200000) }, Run: c03Group},
+			{Name: "group", N: func(t fw.Tier) int { return pick(t, 10000, 300000) }, Run: c03Group},
 		},
 		Witness: sqlWitness,
 	})
